@@ -24,9 +24,15 @@ R = Registry(
         "visitor brackets the OR form, no infix operator can bind between IN and the injected AND; each "
         "dialect empty-set SELECT has a constant-false WHERE (and one column per element type where tuple "
         "IN reaches it); negating an IN flips the expanding parameter's expand_op on a clone, and every "
-        "empty-set call site passes the parameter's expand_op."
+        "empty-set call site passes the parameter's expand_op; the literal and the bound expansion of an IN "
+        "list render one item per element (no filter/slice/mutation between the list and the rendered items, "
+        "every arm iterates the whole list, empty-set rendering selected by emptiness alone) and agree with "
+        "each other on the row test, the empty arms and the list syntax; expanded elements are looked up in "
+        "the bind-processor mapping by the raw bind name and their processors are registered under the keys "
+        "put into the parameter dictionary; generated element names are compared with the existing bind names."
     ),
-    not_decided="three-valued truth for non-empty lists on a backend; re-binding cached statements with other lengths.",
+    not_decided="three-valued truth of the backend's IN for non-empty lists; what the literal/bind processors "
+                "of a type do to a value; re-binding cached statements with other lengths beyond the clauses above.",
 )
 
 COMP = "sql/compiler.py"
@@ -364,6 +370,629 @@ def r3(ctx):
                           f"{m.path}:{c.lineno}")
 
 
+# ------------------------------------------------------------------------------------------ R4
+# The literal path (`literal_execute` / `literal_binds`) and the bound path of an expanding parameter are
+# two siblings that turn the same `values` list into the text that replaces __[POSTCOMPILE_x]: the
+# property ("bound once, rendered literally, or re-bound") needs both to render one item per element
+# of the list, in order, and to treat "empty" identically.
+COMPS = (ast.ListComp, ast.GeneratorExp, ast.SetComp, ast.DictComp)
+PRESERVING_CALLS = {"list", "tuple"}          # element preserving re-wrapping of the list
+ITER_WRAPPERS = {"enumerate", "zip", "reversed", "iter"}   # iterate their argument element by element
+DROPPING_CALLS = {"filter", "set", "frozenset", "compress", "takewhile", "dropwhile", "islice"}
+DROPPING_METHODS = {"remove", "pop", "clear", "discard", "__delitem__"}
+EXPANDERS_PREFIX = "_literal_execute_expanding_parameter"
+
+
+def _iter_base(it):
+    """Names whose elements the iterable expression `it` walks one by one: `xs`, `enumerate(xs, 1)`,
+    `zip(xs, other)` -> {xs, other}."""
+    if isinstance(it, ast.Name):
+        return {it.id}
+    if isinstance(it, ast.Call) and isinstance(it.func, ast.Name) and it.func.id in ITER_WRAPPERS | PRESERVING_CALLS:
+        out = set()
+        for a in it.args:
+            out |= _iter_base(a)
+        return out
+    return set()
+
+
+def _target_names(t):
+    return {n.id for n in ast.walk(t) if isinstance(n, ast.Name)}
+
+
+def _inline_locals(fn, expr, params_map):
+    """Text of `expr` with single-assignment straight-line locals of `fn` replaced by their defining
+    expression and parameters renamed through `params_map` (so that two siblings can be compared
+    independently of the names of their locals)."""
+    once = {}
+    counts = {}
+    for n, v, st in _all_name_stores(fn):
+        counts[n] = counts.get(n, 0) + 1
+        if v is not None and st in fn.body and isinstance(st, ast.Assign):
+            once[n] = v
+    env = {n: v for n, v in once.items() if counts[n] == 1 and isinstance(v, (ast.Attribute, ast.Name, ast.Call))}
+
+    class T(ast.NodeTransformer):
+        def __init__(self):
+            self.depth = 0
+
+        def visit_Name(self, node):
+            if node.id in params_map:
+                return ast.copy_location(ast.Name(id=params_map[node.id], ctx=node.ctx), node)
+            if node.id in env and self.depth < 4:
+                self.depth += 1
+                try:
+                    import copy
+                    return self.visit(copy.deepcopy(env[node.id]))
+                finally:
+                    self.depth -= 1
+            return node
+    import copy
+    return unparse(T().visit(copy.deepcopy(expr)))
+
+
+def _all_name_stores(fn):
+    """(name, value or None, statement) for every binding of a local name in `fn`, nested scopes excluded."""
+    from ..astutil import name_stores
+    return name_stores(fn)
+
+
+def _values_param(ctx, f):
+    """The parameter of an expander whose emptiness selects the empty-set rendering."""
+    pm = f.module.parents()
+    cands = None
+    sites = calls_named(f.node, "visit_empty_set_op_expr")
+    ctx.require(sites, f"{f.key}: no empty-set rendering (visit_empty_set_op_expr) in an IN-list expander")
+    origin = _param_origins(f)
+    for c in sites:
+        here = set()
+        for t, pol in lexical_guards(pm, c, stop=f.node):
+            if "_is_tuple_type" in unparse(t):
+                continue
+            here |= {origin[x.id] for x in ast.walk(t) if isinstance(x, ast.Name) and x.id in origin}
+        cands = here if cands is None else cands & here
+    ctx.require(cands and len(cands) == 1,
+                f"{f.key}: the empty-set arm is not selected by a test on one parameter (candidates {sorted(cands or [])})")
+    return next(iter(cands)), sites
+
+
+def _param_origins(f):
+    """{local name: parameter} for parameters and their element preserving copies."""
+    origin = {q: q for q in f.params if q != "self"}
+    changed = True
+    while changed:
+        changed = False
+        for n, v, st in _all_name_stores(f.node):
+            if v is None or n in origin:
+                continue
+            for q in set(origin.values()):
+                al = {k for k, o in origin.items() if o == q}
+                if _preserving(v, al) == "same":
+                    origin[n] = q
+                    changed = True
+                    break
+    return origin
+
+
+def _aliases(ctx, f, p):
+    """Names that hold the list passed as `p` (element preserving re-bindings), and the problems found
+    while computing them (re-bindings that drop elements)."""
+    al = {p}
+    problems = []
+    changed = True
+    stores = list(_all_name_stores(f.node))
+    for nf in ast.walk(f.node):
+        if nf is not f.node and isinstance(nf, (ast.FunctionDef, ast.Lambda)):
+            if isinstance(nf, ast.FunctionDef):
+                stores.extend(_all_name_stores(nf))
+    seen_bad = set()
+    while changed:
+        changed = False
+        for n, v, st in stores:
+            if v is None:
+                if n in al and id(st) not in seen_bad and isinstance(st, (ast.AugAssign, ast.For, ast.With)):
+                    ctx.error(f"{f.key}: `{n}` (the IN list) is re-bound by `{unparse(st)[:60]}` (unknown idiom)")
+                continue
+            reads = {x.id for x in ast.walk(v) if isinstance(x, ast.Name)}
+            if not (reads & al):
+                if n in al and n != p:
+                    continue
+                if n == p and id(st) not in seen_bad:
+                    seen_bad.add(id(st))
+                    problems.append(f"`{unparse(st)[:90]}` replaces the IN list by something not derived from it")
+                continue
+            kind = _preserving(v, al)
+            if kind == "same":
+                if n not in al:
+                    al.add(n)
+                    changed = True
+            elif kind == "drops" and (n in al or _rebinding_feeds(n, f.node, al)):
+                if id(st) not in seen_bad:
+                    seen_bad.add(id(st))
+                    problems.append(f"`{unparse(st)[:120]}` can drop elements of the IN list before it is rendered")
+            elif n in al and kind is None and id(st) not in seen_bad:
+                ctx.error(f"{f.key}: `{unparse(st)[:80]}` re-binds the IN list in a way this rule does not understand")
+    return al, problems
+
+
+def _rebinding_feeds(name, fn, al):
+    """A fresh local assigned from a filtered copy of the list counts as the list when it is iterated."""
+    for n in ast.walk(fn):
+        if isinstance(n, COMPS):
+            for g in n.generators:
+                if name in _iter_base(g.iter):
+                    return True
+        if isinstance(n, ast.Call) and call_name(n) and call_name(n).endswith(".join") and n.args \
+                and isinstance(n.args[0], ast.Name) and n.args[0].id == name:
+            return True
+    return False
+
+
+def _preserving(v, al):
+    """'same' if expression `v` holds exactly the elements of an alias, 'drops' if it can hold fewer,
+    None if not understood."""
+    if isinstance(v, ast.Name) and v.id in al:
+        return "same"
+    if isinstance(v, ast.Call) and isinstance(v.func, ast.Name):
+        if v.func.id in PRESERVING_CALLS and len(v.args) == 1:
+            return _preserving(v.args[0], al)
+        if v.func.id in DROPPING_CALLS and any(_mentions(a, al) for a in v.args):
+            return "drops"
+    if isinstance(v, ast.Subscript) and isinstance(v.value, ast.Name) and v.value.id in al and isinstance(v.slice, ast.Slice):
+        return "drops"
+    if isinstance(v, (ast.ListComp, ast.GeneratorExp)) and len(v.generators) == 1:
+        g = v.generators[0]
+        if _iter_base(g.iter) & al:
+            if g.ifs:
+                return "drops"
+            if isinstance(v.elt, ast.Name) and isinstance(g.target, ast.Name) and v.elt.id == g.target.id:
+                return "same"
+    if isinstance(v, ast.IfExp):
+        a, b = _preserving(v.body, al), _preserving(v.orelse, al)
+        if "drops" in (a, b):
+            return "drops"
+        if a == b == "same":
+            return "same"
+    return None
+
+
+def _mentions(node, names):
+    return any(isinstance(x, ast.Name) and x.id in names for x in ast.walk(node))
+
+
+def _element_generators(fn, al):
+    """[(comprehension generator, what it iterates)] for every generator that walks the IN list or one
+    of its elements (tuple members), anywhere in `fn` (nested helpers included)."""
+    out = []
+    elem_vars = set()
+    gens = [(n, g) for n in ast.walk(fn) if isinstance(n, COMPS) for g in n.generators]
+    derived = set()
+    for n, v, st in _all_name_stores(fn):
+        if isinstance(v, COMPS) and v.generators and _iter_base(v.generators[0].iter) & al:
+            derived.add(n)
+    for _, g in gens:
+        if _iter_base(g.iter) & (al | derived):
+            out.append((g, "the list"))
+            elem_vars |= _target_names(g.target)
+    for _, g in gens:
+        if not (_iter_base(g.iter) & (al | derived)) and _iter_base(g.iter) & elem_vars:
+            out.append((g, "the members of a tuple element"))
+    return out, derived, elem_vars
+
+
+def _covers(expr, al, derived, elem_vars, tuple_arm):
+    bases = set()
+    for n in ast.walk(expr):
+        if isinstance(n, COMPS):
+            for g in n.generators:
+                bases |= _iter_base(g.iter)
+    if not (bases & (al | derived)):
+        return False
+    if tuple_arm and not (bases & elem_vars):
+        return False
+    return True
+
+
+def _arm_of(guards, p, al):
+    """('empty:tuple'|'empty:scalar'|'tuple'|'scalar'|None, extra atoms) from the lexical guards
+    [(test, polarity)] of a statement in an expander.  The test that mentions `_is_tuple_type` is the
+    row test as a whole (its `or (untyped list of sequences)` part belongs to it)."""
+    empty = None
+    tup = None
+    extra = []
+    for t, pol in guards:
+        if "_is_tuple_type" in unparse(t):
+            tup = pol if tup is None else (tup and pol)
+            continue
+        for a, apol in guard_atoms([(t, pol)]):
+            if a in al:
+                empty = not apol
+            else:
+                extra.append((a, apol))
+                if empty is None and _mentions(ast.parse(a, mode="eval"), al):
+                    # e.g. `not values or values == [None]`: an emptiness test with something added; the
+                    # atom stays in `extra`, so the arm is reported wherever exact emptiness matters
+                    empty = apol
+    if empty is None:
+        return None, extra
+    if empty:
+        return (None if tup is None else ("empty:tuple" if tup else "empty:scalar")), extra
+    if tup is None:
+        return None, extra
+    return ("tuple" if tup else "scalar"), extra
+
+
+@R.rule("C07-R4", floor=17, template="T-FLOW + T-SIBLING",
+        desc="the literal and the bound expansion of an IN list render one item per element: the list is "
+             "never filtered/sliced/mutated between the parameter and the rendered items, every non-empty "
+             "arm iterates the whole list (and every member of a tuple element), the empty-set rendering "
+             "is selected by emptiness of the list alone, and both siblings agree on the tuple test, the "
+             "empty arms and the list syntax")
+def r4(ctx):
+    ix = ctx.index
+    base = ix.cls(BASE)
+    family = []
+    for cls in [base] + sorted(ix.subclasses(base), key=lambda c: c.key):
+        for name, f in sorted(cls.methods.items()):
+            if name.startswith(EXPANDERS_PREFIX) and not f.type_only:
+                family.append(f)
+    ctx.require(len(family) >= 2, "the IN-list expanders (_literal_execute_expanding_parameter*) vanished")
+    summary = {}
+    for f in family:
+        ctx.functions_analysed.add(f.key)
+        pm = f.module.parents()
+        p, empty_sites = _values_param(ctx, f)
+        al, problems = _aliases(ctx, f, p)
+        # (i) nothing drops elements
+        gens, derived, elem_vars = _element_generators(f.node, al)
+        flagged = " ".join(problems)
+        for g, what in gens:
+            if g.ifs and f"for {unparse(g.target)} in {unparse(g.iter)} if" not in flagged:
+                problems.append(f"a comprehension over {what} skips elements: `for {unparse(g.target)} in "
+                                f"{unparse(g.iter)} if {' if '.join(unparse(i) for i in g.ifs)}`")
+        from ..astutil import mutating_calls
+        for recv, meth, call in mutating_calls(f.node, into_nested=True):
+            if recv in al and meth in DROPPING_METHODS:
+                problems.append(f"`{unparse(call)[:60]}` removes elements from the IN list")
+        for n in ast.walk(f.node):
+            if isinstance(n, ast.For) and _iter_base(n.iter) & al:
+                body_kinds = {type(x).__name__ for st in n.body for x in ast.walk(st)}
+                ctx.require(not ({"Continue", "Break", "If"} & body_kinds),
+                            f"{f.key}: a `for` loop over the IN list with conditional flow (unknown idiom)")
+        ctx.check(not problems, f"{f.key}:every-element-rendered",
+                  "; ".join(problems) + " -- `x NOT IN (1, NULL)` / duplicates / re-bound lists then differ from the "
+                                        "OR-of-equalities the bound path evaluates",
+                  f"`{p}` reaches {len(gens)} element loops unfiltered (aliases {sorted(al)})", f.loc)
+        # (ii) the empty arm is selected by emptiness alone
+        for i, c in enumerate(empty_sites):
+            arm, extra = _arm_of(lexical_guards(pm, c, stop=f.node), p, al)
+            ctx.require(arm in ("empty:tuple", "empty:scalar"),
+                        f"{f.key}: empty-set call `{unparse(c)[:60]}` is not under `not {p}` and a tuple-type test")
+            ctx.check(not extra, f"{f.key}:{arm}:selected-by-emptiness-only",
+                      f"the empty-set rendering is additionally conditioned on {extra}: an empty list can reach the "
+                      f"item-joining arm (`IN ()`) or a non-empty list the empty-set arm",
+                      f"guard: not {p}", f"{f.module.path}:{c.lineno}")
+        # non-empty lists must not reach the empty-set arm: the test is the plain truth value of the list
+        # (iii) every non-empty arm iterates the list
+        rets = returns_of(f.node)
+        ctx.require(rets, f"{f.key}: no return")
+        rv = None
+        for r in rets:
+            v = r.value
+            if isinstance(v, ast.Tuple) and len(v.elts) == 2 and isinstance(v.elts[1], ast.Name):
+                ctx.require(rv in (None, v.elts[1].id), f"{f.key}: two different result variables")
+                rv = v.elts[1].id
+            elif isinstance(v, ast.Call) and (call_name(v) or "").split(".")[-1].startswith(EXPANDERS_PREFIX):
+                passed = [a for a in v.args if isinstance(a, ast.Name) and a.id in al] + \
+                         [k.value for k in v.keywords if isinstance(k.value, ast.Name) and k.value.id in al]
+                ctx.check(len(passed) == 1, f"{f.key}:delegates-whole-list",
+                          f"`{unparse(v)[:80]}` does not hand the IN list `{p}` itself to the sibling expander",
+                          f"{call_name(v)}(.., {p})", f"{f.module.path}:{r.lineno}")
+            else:
+                ctx.error(f"{f.key}: return `{unparse(v)[:60]}` is neither (to_update, text) nor a delegation")
+        ctx.require(rv is not None, f"{f.key}: result text variable not found")
+        arms = {}
+        for n, v, st in _all_name_stores(f.node):
+            if n != rv or v is None:
+                continue
+            arm, extra = _arm_of(lexical_guards(pm, st, stop=f.node), p, al)
+            ctx.require(arm is not None, f"{f.key}: `{rv}` is assigned outside the empty/tuple/scalar arms")
+            label = arm + "".join(f":if {'' if pol else 'not '}{a}" for a, pol in extra)
+            arms[label] = v
+            if arm.startswith("empty"):
+                continue
+            tuple_arm = arm == "tuple"
+            ctx.check(_covers(v, al, derived, elem_vars, tuple_arm), f"{f.key}:{label}:one-item-per-element",
+                      f"`{rv}` in the {arm} arm is not built by iterating the whole list"
+                      + (" and every member of each tuple" if tuple_arm else ""),
+                      "joins one rendered item per element", f"{f.module.path}:{st.lineno}")
+        ctx.require({"tuple", "scalar"} <= {a.split(":if")[0] for a in arms},
+                    f"{f.key}: tuple / scalar arms not found ({sorted(arms)})")
+        # the tuple-arm test (which lists are rows)
+        tests = [t for n in ast.walk(f.node) if isinstance(n, ast.If) for t in [n.test] if "_is_tuple_type" in unparse(t)
+                 and _mentions(t, al)]
+        ctx.require(len(tests) == 1, f"{f.key}: {len(tests)} tuple-arm tests mentioning the list")
+        summary[f.key] = dict(f=f, p=p, arms=arms, tuple_test=_inline_locals(f.node, tests[0], {p: "VALUES"}))
+    # (iv) sibling agreement, relative to the bound path (the one that does not delegate)
+    bound = [k for k, s in summary.items() if any(
+        (call_name(c) or "").split(".")[-1].startswith(EXPANDERS_PREFIX) for c in calls_in(s["f"].node))]
+    ctx.require(len(bound) == 1, f"expected one bound-path expander delegating to the literal one, found {bound}")
+    ref = summary[bound[0]]
+    for k, s in summary.items():
+        if k == bound[0]:
+            continue
+        f = s["f"]
+        ctx.check(s["tuple_test"] == ref["tuple_test"], f"{k}:tuple-test-agrees-with-bound-path",
+                  f"rows are recognised by `{s['tuple_test']}` here but by `{ref['tuple_test']}` in {ref['f'].qualname}",
+                  "same tuple/row test", f.loc)
+        for arm in ("empty:tuple", "empty:scalar"):
+            mine = sorted({_inline_locals(f.node, v, {s["p"]: "VALUES"}) for lab, v in s["arms"].items()
+                           if lab.split(":if")[0] == arm})
+            theirs = sorted({_inline_locals(ref["f"].node, v, {ref["p"]: "VALUES"}) for lab, v in ref["arms"].items()
+                             if lab.split(":if")[0] == arm})
+            ctx.require(mine and theirs, f"{k}: no {arm} arm in one of the siblings")
+            ctx.check(mine == theirs, f"{k}:{arm}:agrees-with-bound-path",
+                      f"an empty list has nothing to render literally, yet the literal path emits `{' / '.join(mine)}` "
+                      f"where the bound path emits `{' / '.join(theirs)}`", "identical empty-set text", f.loc)
+        for arm in ("tuple", "scalar"):
+            mine = [v for lab, v in s["arms"].items() if lab.split(":if")[0] == arm]
+            theirs = [v for lab, v in ref["arms"].items() if lab.split(":if")[0] == arm]
+            want = set().union(*[set(str_constants(v)) for v in theirs])
+            plain = [v for v in mine if set(str_constants(v)) == want]
+            ctx.check(bool(plain), f"{k}:{arm}:same-list-syntax",
+                      f"no {arm} arm here uses the separators/wrappers of the bound path {sorted(want)} "
+                      f"(found {[sorted(set(str_constants(v))) for v in mine]})",
+                      f"{sorted(want)}", f.loc)
+
+
+# ------------------------------------------------------------------------------------------ R5
+# `x IN (a, b)` must compare the same DBAPI values as `x = a OR x = b`: each expanded element
+# `<name>_<i>` has to be sent through the bind processor the scalar parameter `<name>` would get.
+# Inside _process_parameters_for_postcompile two key spaces coexist (raw bind names: self.binds,
+# self.bind_names values, self._bind_processors; escaped names: the POSTCOMPILE tokens, the expanded
+# keys put into `parameters`).  The processor mapping has to be read with the raw name, and the
+# processors have to be registered under exactly the keys that are put into `parameters`.
+POSTCOMPILE = f"{BASE}._process_parameters_for_postcompile"
+
+
+def _name_aliases(fn, is_source):
+    """Local names bound (possibly through typing.cast / plain copies) to an expression accepted by
+    `is_source`."""
+    al = set()
+    changed = True
+    stores = [(n, v) for n, v, st in _all_name_stores(fn) if v is not None]
+    while changed:
+        changed = False
+        for n, v in stores:
+            if n in al:
+                continue
+            x = v
+            if isinstance(x, ast.Call) and (call_name(x) or "").split(".")[-1] == "cast" and len(x.args) == 2:
+                x = x.args[1]
+            if is_source(x) or (isinstance(x, ast.Name) and x.id in al):
+                al.add(n)
+                changed = True
+    return al
+
+
+@R.rule("C07-R5", floor=6, template="T-FLOW (key-space consistency)",
+        desc="_process_parameters_for_postcompile: the bind-processor mapping (keyed like self.binds by the raw "
+             "bind name) is read and membership-tested only with the raw loop name, in the tuple and the "
+             "scalar arm, and element processors are registered under the keys that are put into `parameters` "
+             "(taken from to_update, or formatted from the escaped name that was given to the expander)")
+def r5(ctx):
+    f = ctx.func(POSTCOMPILE)
+    fn = f.node
+    pm = f.module.parents()
+    # ground the key space of the processor mapping: built from self.bind_names[...] values
+    bp = ctx.index.cls(BASE).methods.get("_bind_processors")
+    ctx.require(bp is not None, "SQLCompiler._bind_processors vanished")
+    ctx.functions_analysed.add(bp.key)
+    ctx.require(any(isinstance(n, ast.Subscript) and dotted(n.value) == "self.bind_names" for n in ast.walk(bp.node)),
+                "_bind_processors is no longer keyed by self.bind_names[...] (raw names): re-derive C07-R5")
+    # raw / escaped pair
+    ebn = _name_aliases(fn, lambda x: dotted(x) == "self.escaped_bind_names")
+    pairs = []
+    for n, v, st in _all_name_stores(fn):
+        if v is None:
+            continue
+        for c in calls_in(v):
+            if isinstance(c.func, ast.Attribute) and c.func.attr == "get" and c.args and isinstance(c.args[0], ast.Name) \
+                    and ((isinstance(c.func.value, ast.Name) and c.func.value.id in ebn)
+                         or dotted(c.func.value) == "self.escaped_bind_names"):
+                pairs.append((c.args[0].id, n))
+    ctx.require(len(set(pairs)) == 1, f"{f.key}: expected one `escaped = escaped_bind_names.get(raw, raw)` binding, found {pairs}")
+    raw, esc = pairs[0]
+    loops = [n for n in ast.walk(fn) if isinstance(n, ast.For) and isinstance(n.target, ast.Name) and n.target.id == raw]
+    ctx.require(len(loops) == 1, f"{f.key}: `{raw}` is not the variable of one loop over the bind names")
+    names_src = {unparse(v) for n, v, st in _all_name_stores(fn) if v is not None and isinstance(loops[0].iter, ast.Name)
+                 and n == loops[0].iter.id}
+    ctx.require(any("self.bind_names.values()" in t for t in names_src),
+                f"{f.key}: the loop over `{unparse(loops[0].iter)}` is not fed from self.bind_names.values() ({sorted(names_src)})")
+    ctx.require(any(isinstance(n, ast.Subscript) and dotted(n.value) == "self.binds" and isinstance(n.slice, ast.Name)
+                    and n.slice.id == raw for n in ast.walk(loops[0])),
+                f"{f.key}: self.binds is not indexed by `{raw}`")
+    procs = _name_aliases(fn, lambda x: dotted(x) == "self._bind_processors")
+    ctx.require(procs, f"{f.key}: self._bind_processors is not read")
+
+    def arm(node):
+        st = node
+        tup = None
+        for t, pol in lexical_guards(pm, st, stop=fn):
+            if "_is_tuple_type" in unparse(t):
+                tup = pol
+        return "tuple" if tup else ("scalar" if tup is not None else "any")
+
+    def is_proc(x):
+        return (isinstance(x, ast.Name) and x.id in procs) or dotted(x) == "self._bind_processors"
+
+    proc_locals = {n for n, v, st in _all_name_stores(fn) if v is not None and n not in procs
+                   and any(is_proc(x) for x in ast.walk(v))}
+
+    def holds_proc(x):
+        # a processor taken from the mapping, directly or through a local it was hoisted into
+        return any(is_proc(y) or (isinstance(y, ast.Name) and y.id in proc_locals) for y in ast.walk(x))
+
+    sites = {}   # (kind, arm) -> [(key expr, node)]
+    for n in ast.walk(loops[0]):
+        if isinstance(n, ast.Subscript) and is_proc(n.value):
+            sites.setdefault(("lookup", arm(n)), []).append((n.slice, n))
+        elif isinstance(n, ast.Compare) and len(n.ops) == 1 and isinstance(n.ops[0], (ast.In, ast.NotIn)) \
+                and is_proc(n.comparators[0]):
+            sites.setdefault(("membership", arm(n)), []).append((n.left, n))
+        elif isinstance(n, ast.Call) and isinstance(n.func, ast.Attribute) and n.func.attr in ("get", "pop", "setdefault") \
+                and is_proc(n.func.value) and n.args:
+            sites.setdefault(("lookup", arm(n)), []).append((n.args[0], n))
+    for a in ("tuple", "scalar"):
+        ctx.require(("lookup", a) in sites or ("lookup", "any") in sites,
+                    f"{f.key}: no bind-processor lookup for expanded elements in the {a} arm")
+    for (kind, a), lst in sorted(sites.items()):
+        bad = []
+        for k, n in lst:
+            if isinstance(k, ast.Name) and k.id == raw:
+                continue
+            if _mentions(k, {esc}):
+                bad.append(f"`{unparse(n)}` uses the escaped name `{esc}`")
+            else:
+                ctx.error(f"{f.key}: processor {kind} `{unparse(n)}` uses a key this rule cannot classify")
+        ctx.check(not bad, f"{f.key}:processor-{kind}:{a}",
+                  "; ".join(bad) + f" although the mapping is keyed by the raw bind name (as self.binds[{raw}]): for a "
+                  f"parameter name that needs escaping the elements of the IN list are sent to the DBAPI unprocessed "
+                  f"while `col = :param` is processed",
+                  f"{len(lst)} site(s) keyed by `{raw}`", f"{f.module.path}:{lst[0][1].lineno}")
+    # registration keys
+    params = f.params[1]
+    delivered = {c.args[0].id for c in calls_in(loops[0]) if isinstance(c.func, ast.Attribute) and c.func.attr == "update"
+                 and isinstance(c.func.value, ast.Name) and c.func.value.id == params and c.args and isinstance(c.args[0], ast.Name)}
+    ctx.require(len(delivered) == 1, f"{f.key}: expected one `{params}.update(<expanded items>)`, found {sorted(delivered)}")
+    tu = next(iter(delivered))
+    exp_calls = [c for c in calls_in(loops[0]) if (call_name(c) or "").split(".")[-1] == EXPANDERS_PREFIX]
+    ctx.require(len(exp_calls) == 1 and exp_calls[0].args and isinstance(exp_calls[0].args[0], ast.Name),
+                f"{f.key}: call of {EXPANDERS_PREFIX} not found")
+    given = exp_calls[0].args[0].id   # the name the expanded keys are formatted from
+    regs = {}
+    for c in calls_in(loops[0]):
+        if not (isinstance(c.func, ast.Attribute) and c.func.attr == "update" and c.args and isinstance(c.args[0], COMPS)):
+            continue
+        comp = c.args[0]
+        elt = comp.elt if not isinstance(comp, ast.DictComp) else ast.Tuple(elts=[comp.key, comp.value], ctx=ast.Load())
+        if not (isinstance(elt, ast.Tuple) and len(elt.elts) == 2 and holds_proc(elt.elts[1])):
+            continue
+        regs.setdefault(arm(c), []).append((elt.elts[0], comp, c))
+    ctx.require({"tuple", "scalar"} <= set(regs) or "any" in regs,
+                f"{f.key}: registration of element processors not found for both arms ({sorted(regs)})")
+    for a, lst in sorted(regs.items()):
+        bad = []
+        for k, comp, c in lst:
+            from_tu = {t for g in comp.generators if _iter_base(g.iter) & {tu}
+                       for t in ([g.target.elts[0].id] if isinstance(g.target, ast.Tuple) and g.target.elts
+                                 and isinstance(g.target.elts[0], ast.Name) else [])}
+            if isinstance(k, ast.Name) and k.id in from_tu:
+                continue
+            if isinstance(k, ast.BinOp) and isinstance(k.op, ast.Mod) and isinstance(k.right, ast.Tuple) and k.right.elts \
+                    and isinstance(k.right.elts[0], ast.Name):
+                base_name = k.right.elts[0].id
+                if base_name == given:
+                    continue
+                bad.append(f"key `{unparse(k)}` is formatted from `{base_name}`, but the items put into `{params}` "
+                           f"(`{tu}`) are named after `{given}`")
+                continue
+            ctx.error(f"{f.key}: processor registration key `{unparse(k)}` is not understood")
+        ctx.check(not bad, f"{f.key}:processor-registration-key:{a}",
+                  "; ".join(bad) + ": when the two differ (a bind name that needs escaping) no processor is found for "
+                  "the expanded elements at execution time",
+                  f"keys of `{tu}` / formatted from `{given}`", f"{f.module.path}:{lst[0][2].lineno}")
+
+
+# ------------------------------------------------------------------------------------------ R6
+# Expanded elements get generated names `<name>_<i>`.  Anonymous bind names have the same shape
+# (`<column>_<counter>`), so the generated names can be those of another parameter of the statement; a name
+# may enter the statement's parameter namespace only after it was compared with the names already there
+# (visit_bindparam does that for every compiled parameter).
+NAMESPACES = ("self.binds", "self.bind_names", "self.positiontup")
+
+
+def _namespace_tests(fn, key_names, extra_namespaces=()):
+    """Membership / disjointness tests in `fn` that relate one of `key_names` to the existing bind names."""
+    out = []
+    spaces = set(NAMESPACES) | set(extra_namespaces)
+
+    def is_space(x):
+        d = dotted(x) or ""
+        return d in spaces or any(d.startswith(sp + ".") for sp in spaces) or \
+            (isinstance(x, ast.Call) and isinstance(x.func, ast.Attribute) and is_space(x.func.value))
+
+    for n in ast.walk(fn):
+        if isinstance(n, ast.Compare) and len(n.ops) == 1 and isinstance(n.ops[0], (ast.In, ast.NotIn)):
+            if _mentions(n.left, key_names) and is_space(n.comparators[0]):
+                out.append(n)
+        elif isinstance(n, ast.Call) and isinstance(n.func, ast.Attribute) and \
+                n.func.attr in ("isdisjoint", "intersection", "difference", "issubset"):
+            sides = [n.func.value] + list(n.args)
+            if any(_mentions(x, key_names) for x in sides) and any(is_space(x) for x in sides):
+                out.append(n)
+        elif isinstance(n, ast.BinOp) and isinstance(n.op, (ast.BitAnd, ast.Sub)):
+            if any(_mentions(x, key_names) for x in (n.left, n.right)) and any(is_space(x) for x in (n.left, n.right)):
+                out.append(n)
+    return out
+
+
+@R.rule("C07-R6", floor=2, template="T-GUARD",
+        desc="a bind name enters the statement's parameter namespace only after a comparison with the names "
+             "already in it: visit_bindparam tests `name in self.binds` before registering; the generated "
+             "names of expanded IN elements are tested against the existing names before they are put into "
+             "the parameter dictionary")
+def r6(ctx):
+    # site A: compiled parameters
+    f = ctx.func(f"{BASE}.visit_bindparam")
+    g = ctx.cfg(f)
+    stores = [(n, st) for st in ast.walk(f.node) if isinstance(st, ast.Assign) for t in st.targets
+              for n in [t] if isinstance(t, ast.Subscript) and dotted(t.value) == "self.binds" and isinstance(t.slice, ast.Name)]
+    ctx.require(stores, f"{f.key}: registration `self.binds[name] = ...` not found")
+    w, bad_st, tests = None, None, []
+    for t, st in stores:
+        key = t.slice.id
+        tests = _namespace_tests(f.node, {key})
+        tn = [i for c in tests for i in g.nodes_containing(c)]
+        for nid in g.nodes_for(st):
+            w1 = g.always_preceded(nid, tn) if tn else ["no test of the name against self.binds"]
+            if w1 is not None and w is None:
+                w, bad_st = w1, st
+    ctx.check(w is None, f"{f.key}:name-checked-before-registration",
+              f"`{unparse(bad_st)[:60] if bad_st is not None else ''}` can be reached without comparing the name with the "
+              f"names already registered", f"{len(stores)} store(s) dominated by `{unparse(tests[0]) if tests else ''}`", f.loc, w)
+    # site B: generated names of expanded elements
+    f = ctx.func(POSTCOMPILE)
+    params = f.params[1]
+    ups = [c for c in calls_in(f.node) if isinstance(c.func, ast.Attribute) and c.func.attr == "update"
+           and isinstance(c.func.value, ast.Name) and c.func.value.id == params and c.args and isinstance(c.args[0], ast.Name)]
+    ctx.require(len(ups) == 1, f"{f.key}: expected one `{params}.update(<expanded items>)`")
+    tu = ups[0].args[0].id
+    key_names = {tu}
+    for n in ast.walk(f.node):
+        if isinstance(n, COMPS):
+            for gen in n.generators:
+                if _iter_base(gen.iter) & {tu}:
+                    key_names |= _target_names(gen.target)
+    tests = _namespace_tests(f.node, key_names, extra_namespaces=(params,))
+    fam = [m for n, m in ctx.index.cls(BASE).methods.items() if n.startswith(EXPANDERS_PREFIX)]
+    for m in fam:
+        ctx.functions_analysed.add(m.key)
+        made = set()
+        for nm, v, st in _all_name_stores(m.node):
+            if v is not None and isinstance(v, COMPS):
+                made.add(nm)
+                for gen in v.generators:
+                    made |= _target_names(gen.target)
+        tests += _namespace_tests(m.node, made | {"name"}, extra_namespaces=(params,))
+    ctx.check(bool(tests), f"{f.key}:expanded-names-checked-against-existing",
+              f"`{unparse(ups[0])}` adds the generated names `<name>_<i>` of the IN elements to the parameter dictionary "
+              f"without any comparison with the existing names ({', '.join(NAMESPACES)}): an anonymous parameter of another "
+              f"column can have the same name (`x IN (..)` expands `x_1` to `x_1_1`, which is also the name of the "
+              f"parameter in `x_1 = :x_1_1`), and one value silently replaces the other",
+              f"{len(tests)} test(s)", f"{f.module.path}:{ups[0].lineno}")
+
+
 # ------------------------------------------------------------------------------------------ self test
 R.mutant("r1-str-dialect-uses-base-compiler", "engine/default.py",
          sub("    statement_compiler = compiler.StrSQLCompiler\n", "    statement_compiler = compiler.SQLCompiler\n"), "C07-R1")
@@ -398,3 +1027,77 @@ R.mutant("benign-rename-clone", ELEM,
 R.mutant("benign-equivalent-constants", COMP, sub('return "NULL) AND (1 != 1"', 'return "NULL) AND (0 = 1"'), None)
 R.mutant("benign-added-dialect-comment-and-log", "dialects/sqlite/base.py",
          sub("        return self.visit_empty_set_expr(type_)\n", "        _n = len(type_)\n        return self.visit_empty_set_expr(type_)\n"), None)
+
+# ---- R4 (seed C07/1 and its class)
+_LIT_HEAD = "        typ_dialect_impl = parameter.type._unwrapped_dialect_impl(self.dialect)\n\n        if not values:\n"
+R.mutant("r4-seed1-literal-path-drops-none", COMP,
+         sub(_LIT_HEAD, "        typ_dialect_impl = parameter.type._unwrapped_dialect_impl(self.dialect)\n\n"
+                        "        if not typ_dialect_impl._is_tuple_type:\n"
+                        "            values = [value for value in values if value is not None]\n\n        if not values:\n"), "C07-R4")
+R.mutant("r4-literal-scalar-comprehension-filter", COMP,
+         sub("                    for value in values\n                )\n\n        return (), replacement_expression",
+             "                    for value in values\n                    if value is not None\n                )\n\n        return (), replacement_expression"), "C07-R4")
+R.mutant("r4-bound-path-skips-none", COMP,
+         sub("                for i, value in enumerate(values, 1)\n            ]\n            replacement_expression = \", \".join(\n                _render_bindtemplate(key)",
+             "                for i, value in enumerate(values, 1)\n                if value is not None\n            ]\n            replacement_expression = \", \".join(\n                _render_bindtemplate(key)"), "C07-R4")
+R.mutant("r4-literal-path-truncates-list", COMP,
+         sub(_LIT_HEAD, "        typ_dialect_impl = parameter.type._unwrapped_dialect_impl(self.dialect)\n"
+                        "        values = values[:1000]\n\n        if not values:\n"), "C07-R4")
+R.mutant("r4-literal-path-dedups-with-filter", COMP,
+         sub(_LIT_HEAD, "        typ_dialect_impl = parameter.type._unwrapped_dialect_impl(self.dialect)\n"
+                        "        values = list(filter(None, values))\n\n        if not values:\n"), "C07-R4")
+R.mutant("r4-empty-guard-widened", COMP,
+         sub("        if not values:\n            to_update = []\n", "        if not values or values == [None]:\n            to_update = []\n"), "C07-R4")
+R.mutant("r4-empty-arm-narrowed", COMP,
+         sub("            else:\n                replacement_expression = self.visit_empty_set_op_expr(\n                    [parameter.type], parameter.expand_op\n                )\n\n        elif typ_dialect_impl._is_tuple_type or (\n            typ_dialect_impl._isnull\n            and isinstance(values[0], collections_abc.Sequence)\n            and not isinstance(values[0], (str, bytes))\n        ):\n            if typ_dialect_impl._has_bind_expression:",
+             "            elif parameter.expand_op is not None:\n                replacement_expression = self.visit_empty_set_op_expr(\n                    [parameter.type], parameter.expand_op\n                )\n            else:\n                replacement_expression = \"NULL\"\n\n        elif typ_dialect_impl._is_tuple_type or (\n            typ_dialect_impl._isnull\n            and isinstance(values[0], collections_abc.Sequence)\n            and not isinstance(values[0], (str, bytes))\n        ):\n            if typ_dialect_impl._has_bind_expression:"), "C07-R4")
+R.mutant("r4-literal-tuple-arm-loses-values-keyword", COMP,
+         sub("            replacement_expression = (\n                \"VALUES \" if self.dialect.tuple_in_values else \"\"\n            ) + \", \".join(",
+             "            replacement_expression = \", \".join("), "C07-R4")
+R.mutant("r4-literal-row-test-differs", COMP,
+         sub("        elif typ_dialect_impl._is_tuple_type or (\n            typ_dialect_impl._isnull\n            and isinstance(values[0], collections_abc.Sequence)\n            and not isinstance(values[0], (str, bytes))\n        ):\n            if typ_dialect_impl._has_bind_expression:",
+             "        elif typ_dialect_impl._is_tuple_type or (\n            typ_dialect_impl._isnull\n            and isinstance(values[0], (list, tuple))\n        ):\n            if typ_dialect_impl._has_bind_expression:"), "C07-R4")
+R.mutant("r4-delegation-drops-first-element", COMP,
+         sub("            return self._literal_execute_expanding_parameter_literal_binds(\n                parameter, values\n            )",
+             "            return self._literal_execute_expanding_parameter_literal_binds(\n                parameter, values[1:]\n            )"), "C07-R4")
+R.mutant("r4-tuple-arm-renders-first-member-only", COMP,
+         sub("                        self.render_literal_value(value, param_type)\n                        for value, param_type in zip(\n                            tuple_element, parameter.type.types\n                        )",
+             "                        self.render_literal_value(value, param_type)\n                        for value, param_type in zip(\n                            tuple_element[:1], parameter.type.types\n                        )"), "C07-R4")
+R.mutant("benign-r4-list-copy-and-alias", COMP,
+         sub(_LIT_HEAD, "        typ_dialect_impl = parameter.type._unwrapped_dialect_impl(self.dialect)\n"
+                        "        values = list(values)\n        vals = values\n\n        if not vals:\n"), None)
+R.mutant("benign-r4-unrelated-filtered-comprehension", COMP,
+         sub("        if self._numeric_binds:\n            bind_template = self.compilation_bindtemplate\n",
+             "        _known = [k for k in self.binds if k]\n        if self._numeric_binds:\n            bind_template = self.compilation_bindtemplate\n"), None)
+R.mutant("benign-r4-empty-tuple-arm-aligned-with-bound-path", COMP,
+         sub("                replacement_expression = (\n                    \"VALUES \" if self.dialect.tuple_in_values else \"\"\n                ) + self.visit_empty_set_op_expr(\n                    parameter.type.types, parameter.expand_op\n                )",
+             "                replacement_expression = self.visit_empty_set_op_expr(\n                    parameter.type.types, parameter.expand_op\n                )"), None)
+# ---- R5 (seed C07/2 and its class)
+_SCALAR_REG = "                    else:\n                        new_processors.update(\n                            (key, single_processors[name])\n                            for key, _ in to_update\n                            if name in single_processors\n                        )\n"
+R.mutant("r5-seed2-hoisted-lookup-uses-escaped-name", COMP,
+         sub(_SCALAR_REG, "                    elif escaped_name in single_processors:\n                        processor = single_processors[escaped_name]\n"
+                          "                        new_processors.update(\n                            (key, processor) for key, _ in to_update\n                        )\n"), "C07-R5")
+R.mutant("r5-membership-by-escaped-name", COMP,
+         sub("                            if name in single_processors\n", "                            if escaped_name in single_processors\n"), "C07-R5")
+R.mutant("r5-tuple-lookup-by-escaped-name", COMP,
+         sub("                                tuple_processors[name][j - 1],\n", "                                tuple_processors[escaped_name][j - 1],\n"), "C07-R5")
+R.mutant("r5-scalar-registration-under-raw-key", COMP,
+         sub(_SCALAR_REG, "                    else:\n                        new_processors.update(\n                            (\"%s_%s\" % (name, i), single_processors[name])\n"
+                          "                            for i, _ in enumerate(to_update, 1)\n                            if name in single_processors\n                        )\n"), "C07-R5")
+R.mutant("benign-r5-hoisted-lookup-by-raw-name", COMP,
+         sub(_SCALAR_REG, "                    elif name in single_processors:\n                        processor = single_processors[name]\n"
+                          "                        new_processors.update(\n                            (key, processor) for key, _ in to_update\n                        )\n"), None)
+R.mutant("benign-r5-tuple-keys-from-escaped-name", COMP,
+         sub("                                \"%s_%s_%s\" % (name, i, j),\n                                tuple_processors[name][j - 1],",
+             "                                \"%s_%s_%s\" % (escaped_name, i, j),\n                                tuple_processors[name][j - 1],"), None)
+# ---- R6
+R.mutant("r6-conflict-check-disabled", COMP,
+         sub("        if name in self.binds:\n            existing = self.binds[name]\n            if existing is not bindparam:",
+             "        if kwargs.get(\"check_conflicts\", False):\n            existing = self.binds[name]\n            if existing is not bindparam:"), "C07-R6")
+R.mutant("r6-registered-before-conflict-check", COMP,
+         sub("        name = self._truncate_bindparam(bindparam)\n\n        if name in self.binds:\n            existing = self.binds[name]",
+             "        name = self._truncate_bindparam(bindparam)\n        if bindparam.unique:\n            self.binds[name] = bindparam\n\n        if name in self.binds:\n            existing = self.binds[name]"), "C07-R6")
+R.mutant("benign-r6-expanded-names-checked", COMP,
+         sub("                if not parameter.literal_execute:\n                    parameters.update(to_update)\n",
+             "                if not parameter.literal_execute:\n                    for _k, _ in to_update:\n                        if _k in self.binds and _k != name:\n"
+             "                            raise exc.CompileError(\"expanded name %r conflicts\" % (_k,))\n                    parameters.update(to_update)\n"), None)
